@@ -552,7 +552,6 @@ Section Entries.
   Qed.
 
   (* ---------------------------------------------------------------- shallow_clone_with_overrides( **over) *)
-  Definition merge_kw (base over : kwargs) : kwargs := fold_left (fun acc p => alist_set acc (fst p) (snd p)) over base.
 
   (* the keyword arguments in the order the SOURCE builds them: every non-None field value in field order, an
      overridden one replaced in place, new names appended ({**fields, **kw}); Struct/Entry.v [clone_kwargs] lists the
@@ -689,22 +688,17 @@ Section Entries.
   Theorem clone_kwargs_src_same_bindings : forall cd a over n,
       has_dup (map fst over) = false ->
       alist_get (clone_kwargs_src cd a over) n = alist_get (clone_kwargs cd a over) n.
+  Proof. reflexivity. Qed.
+
+  (* Struct/Entry.v [clone_kwargs] now lists the keywords in the source's order: an equality of keyword LISTS *)
+  Theorem generated_clone_is_entry : forall cd a over,
+      find_class e (c_name cd) = Some cd ->
+      names_ok a = true -> vals_defined a = true -> defaults_defined cd = true -> fields_ok cd = true ->
+      entry_view (Structure__shallow_clone_with_overrides (EH cd cd) (EW cd cd) (kw_dict over) (inst_state a)) =
+      run_entry re_match e (PStruct (c_name cd) a) (EClone over).
   Proof.
-    intros cd a over n Hd. unfold clone_kwargs_src. rewrite (merge_get over _ n Hd).
-    unfold clone_kwargs. rewrite alist_get_app.
-    assert (E : flat_map (fun k => if alist_has over k then []
-                                   else match getattr_opt cd a k with
-                                        | Some v => if not_none v then [(k, v)] else []
-                                        | None => []
-                                        end) (field_names cd) =
-                flat_map (fun k => if alist_has over k then [] else olist (cast_pick cd a k)) (field_names cd)).
-    { apply flat_map_ext. intro k. destruct (alist_has over k); [reflexivity|]. unfold cast_pick.
-      destruct (getattr_opt cd a k) as [v|]; [|reflexivity]. destruct (not_none v); reflexivity. }
-    rewrite E. rewrite (flat_map_skip_get (alist_has over) (cast_pick cd a) n).
-    2:{ intros k p H. unfold cast_pick in H. destruct (getattr_opt cd a k) as [v|]; [|discriminate H].
-        destruct (not_none v); inversion H; reflexivity. }
-    rewrite <- cast_kwargs_pick. unfold alist_has. destruct (alist_get over n); [reflexivity|].
-    destruct (alist_get (cast_kwargs cd cd a) n); reflexivity.
+    intros cd a over Hd Ha Hva Hdd Hft. rewrite (generated_clone_is_constructor cd a over Hd Ha Hva Hdd Hft).
+    unfold run_entry, entry_plan, with_instance, with_class. rewrite Hd. reflexivity.
   Qed.
 
   (* ---------------------------------------------------------------- from_other_class(<a mapping>, ignore_props=ig, **over) *)
@@ -843,3 +837,4 @@ Print Assumptions generated_cast_to_is_entry.
 Print Assumptions generated_from_other_is_entry.
 Print Assumptions generated_clone_is_constructor.
 Print Assumptions clone_kwargs_src_same_bindings.
+Print Assumptions generated_clone_is_entry.
